@@ -393,6 +393,12 @@ func oracleReverse(c *hc.Ctx) {
 			continue
 		}
 
+		// the executable Lean specification judges the real output on the exact bit patterns
+		if rsr, ok := recsOf(r.Data()); ok {
+			c.Case("REVSPEC "+recsTokens(rs)+" R "+recsTokens(rsr), "!", "reverse-spec")
+			c.Count("reverse spec-verdict")
+		}
+
 		// same point set, traversed backwards
 		sa, _ := drawSegs(p.Data())
 		sb, _ := drawSegs(r.Data())
@@ -665,6 +671,23 @@ func oracleSplitAt(c *hc.Ctx) {
 		ts := make([]float64, m)
 		for i := range ts {
 			ts[i] = L * (0.03 + 0.94*(float64(i)+c.Range(0.1, 0.9))/float64(m))
+		}
+		if nsub > 1 && c.Chance(0.4) {
+			// a cut exactly at the end of the first subpath (the caller derives it from the subpath's
+			// own Length, as in "split this path at its subpath boundaries")
+			var l0 float64
+			if msg := hc.Try(func() { l0 = p.Split()[0].Length() }); msg == "" && l0 > 0.03*L && l0 < 0.97*L {
+				dup := false
+				for _, t := range ts {
+					if math.Abs(t-l0) < 1e-6*L {
+						dup = true
+					}
+				}
+				if !dup {
+					ts[0] = l0
+					c.Count("splitat cut-at-subpath-end")
+				}
+			}
 		}
 		if c.Chance(0.25) && m <= 3 {
 			// a second cut shortly after each one (two cuts inside one curved segment)
